@@ -1,13 +1,15 @@
 import RSVerif.Lemmas.Resume
+import RSVerif.Properties.C08
+import RSVerif.Properties.C10
 import RSVerif.Lemmas.RunId
 import RSVerif.Lemmas.ParseWF
 /-
 C04 — Checkpoints are atomic with the data, so resume loses and repeats nothing.
 Property theorems only (helper lemmas live in RSVerif.Lemmas.*).
 
-Everything here is stated over the `Offset`/`Db` fields the sender is handed (`C04_partial` level): that the
-tag of a command *is* the source replication offset after it needs a constant tag base, which the pinned
-tree does not have (deviation D9, owned by C08).
+Sections 0–4 are stated over the `Offset`/`Db` fields the sender is handed. That the tag of a command *is* the
+source replication offset after it needs a constant tag base (C08, after the repair of D9) and an exact decoder
+position (C10, after the repair of D13): section 5 composes the three models.
 -/
 namespace RSVerif.Properties.C04
 open RSVerif RSVerif.Sync RSVerif.Sender RSVerif.Spec.IncrSync RSVerif.Spec.MiniRedis
@@ -455,5 +457,85 @@ example : WF (received demoEvs) ∧
     (run ⟨true, 100, 100000⟩ S.init demoEvs).1.cache = [] ∧
     DbTag demoRc.ckName id 0 (history demoEvs) := by
   decide
+
+/-! ### 5. Composition with C08 (constant tag base) and C10 (exact decoder position) -/
+
+section Compose
+open RSVerif.IncrParse
+
+/-- Every item the parser emits for command `c` carries the tag `base + c.pos`. -/
+theorem pstep_tag (cfg : PCfg) (base : Int) (st : PState) (c : SrcCmd) (st' : PState) (out : List Item)
+    (h : pstep cfg base st c = some (st', out)) : ∀ it ∈ out, it.off = base + c.pos := by
+  unfold pstep at h
+  simp only [] at h
+  intro it hit
+  repeat' split at h
+  all_goals (first | (simp at h; obtain ⟨_, rfl⟩ := h; simp at hit; try (subst hit; rfl)) | (simp at h))
+
+theorem ploop_tag (cfg : PCfg) (base : Int) (cmds : List SrcCmd) :
+    ∀ st, ∀ it ∈ (ploop cfg base st cmds).1, ∃ c ∈ cmds, it.off = base + c.pos := by
+  induction cmds with
+  | nil => intro st it h; simp [ploop] at h
+  | cons c cs ih =>
+    intro st it h
+    unfold ploop at h
+    cases hp : pstep cfg base st c with
+    | none => rw [hp] at h; simp at h
+    | some r =>
+      obtain ⟨st', out⟩ := r
+      rw [hp] at h
+      simp only [List.mem_append] at h
+      rcases h with h | h
+      · exact ⟨c, by simp, pstep_tag cfg base st c st' out hp it h⟩
+      · obtain ⟨c', hc', he⟩ := ih st' it h
+        exact ⟨c', by simp [hc'], he⟩
+
+/-- Tags of the parser's output: the announced base itself (the initial `select` of a resumed run) or
+    `base + pos` of a source command. -/
+theorem parse_tag (cfg : PCfg) (startDb base : Int) (cmds : List SrcCmd) :
+    ∀ it ∈ parse cfg startDb base cmds, it.off = base ∨ ∃ c ∈ cmds, it.off = base + c.pos := by
+  intro it h
+  simp only [parse, parseFull, List.mem_append] at h
+  rcases h with h | h
+  · left
+    unfold startItems at h
+    split at h
+    · simp at h; subst h; rfl
+    · simp at h
+  · right; exact ploop_tag cfg base cmds PState.init it h
+
+/-- **C04 at full strength (composition with C08 and C10).** Take any source stream `inp`. The decoder
+    (C10, repaired tree) reports after each value a position; the parser uses it as `pos`; the tag base is the
+    offset `start` announced at sync start and never moves (C08 `tag_base_constant`). Then the tag of every
+    forwarded command — hence, by `batch_shape`, the checkpoint offset `lastOff g.items` of every group — is the
+    absolute source replication offset immediately after that command: `start` + the number of stream bytes
+    up to and including the command (keep-alive newlines and inline commands included). -/
+theorem tag_is_source_offset (start : Int) (inp : Bytes) (n : Nat)
+    (x : Spec.Resp.Resp × Nat × Nat) (hx : x ∈ (Resp.decodeStream true n inp 0).1) :
+    start + (x.2.1 : Int) = Spec.Offsets.streamOffset start (inp.length - x.2.2) ∧ x.2.2 ≤ inp.length := by
+  have h := C10.offset_exact_stream n inp 0 x hx
+  simp only [Nat.zero_add] at h
+  refine ⟨?_, by omega⟩
+  unfold Spec.Offsets.streamOffset
+  have : x.2.1 = inp.length - x.2.2 := by omega
+  rw [this]
+
+/-- The same through the parser: if the source commands carry the decoder's positions, every item handed to
+    the sender is tagged with `start` (the resumed-start `select`) or with the replication offset right after
+    its source command. -/
+theorem items_tagged_with_source_offsets (cfg : PCfg) (startDb start : Int) (inp : Bytes) (n : Nat)
+    (cmds : List SrcCmd)
+    (hpos : ∀ c ∈ cmds, ∃ x ∈ (Resp.decodeStream true n inp 0).1, c.pos = (x.2.1 : Int)) :
+    ∀ it ∈ parse cfg startDb start cmds, it.off = start ∨
+      ∃ k, k ≤ inp.length ∧ it.off = Spec.Offsets.streamOffset start k := by
+  intro it hit
+  rcases parse_tag cfg startDb start cmds it hit with h | ⟨c, hc, he⟩
+  · exact Or.inl h
+  · obtain ⟨x, hx, hp⟩ := hpos c hc
+    obtain ⟨h1, h2⟩ := tag_is_source_offset start inp n x hx
+    exact Or.inr ⟨inp.length - x.2.2, by omega, by rw [he, hp, h1]⟩
+
+
+end Compose
 
 end RSVerif.Properties.C04
